@@ -168,6 +168,13 @@ def rule_reg12(ctx: Ctx) -> RuleResult:
         sets = [n for n in walk_no_nested(f.node) if (isinstance(n, ast.Assign) and any(
             norm(t) == f"self.{cell}" for t in n.targets)) or (isinstance(n, ast.Call) and norm(n.func).startswith("super()")
                                                                and norm(n.func).endswith(".replace"))]
+        # after `self.<cell> = t` the new owner may as well be addressed by the name it was assigned from
+        for st_ in sets:
+            if isinstance(st_, ast.Assign) and isinstance(st_.value, ast.Name) and not any(
+                    isinstance(x, ast.Name) and x.id == st_.value.id and isinstance(x.ctx, ast.Store) for x in walk_no_nested(f.node)):
+                ons += [n for n in walk_no_nested(f.node) if isinstance(n, ast.Call) and isinstance(n.func, ast.Attribute)
+                        and n.func.attr == on and norm(n.func.value) == st_.value.id and n.args and norm(n.args[0]) == "self"
+                        and n.lineno > st_.lineno]
         ok = bool(offs and ons and sets) and follows_unconditionally(body, offs[0], sets[0]) and \
             follows_unconditionally(body, sets[0], ons[0])
         rr.ob(f.relpath, f.qualname, f"{off} -> set {cell} -> {on}",
